@@ -868,7 +868,9 @@ def diff_helper(func, arr, *args, **kwargs):
                 "Quantities with units of Fahrenheit or Celsius "
                 "cannot be multiplied, divided, subtracted or added."
             )
-        ret_units = delta_degC
+        # K (and any other unit equal to it) differences are reported in delta_degC,
+        # other offset-free temperature units (R, mK, delta_degF ...) keep their scale
+        ret_units = delta_degC if u == delta_degC else u
     else:
         ret_units = u
     return func._implementation(np.asarray(arr), *args, **kwargs) * ret_units
